@@ -385,7 +385,12 @@ def write_rust():
              "pub fn dispatch(tid: usize, op: &str, s: &[BFieldElement]) -> String {", "    match tid {"]
     for i, t in enumerate(TYPES):
         lines.append("        %d => go::<%s>(op, s), // %s" % (i, rust(t), term(t)))
-    lines += ["        _ => \"BADTYPE\".to_string(),", "    }", "}", ""]
+    lines += ["        _ => \"BADTYPE\".to_string(),", "    }", "}", "",
+              "/// type id of a `ty` term (used by corpus lines, which give `-` as the type id)",
+              "pub fn tid_of_term(term: &str) -> Option<usize> {", "    const TERMS: [&str; NUM_TYPES] = ["]
+    for t in TYPES:
+        lines.append("        \"%s\"," % term(t))
+    lines += ["    ];", "    TERMS.iter().position(|t| *t == term)", "}", ""]
     txt = "\n".join(lines)
     path = os.path.join(ROOT, "harness", "src", "bin", "c03_types.rs")
     old = open(path).read() if os.path.exists(path) else None
